@@ -3155,6 +3155,22 @@ impl WasmGenerator {
             I::Store(dst, src, ty) => {
                 // Store a value to a memory address
                 let word_size = ty.word_size() as u32;
+                // An assignment to a single-word parameter (`fn f(x){ x = x + 1.0 .. }`): the
+                // parameter lives in a WASM local, not in linear memory. Set the local; taking
+                // the parameter's VALUE for an address would write to an arbitrary place.
+                if let mir::Value::Argument(arg_idx) = dst.as_ref()
+                    && let Some(&(param_start, word_count)) = self.current_arg_map.get(*arg_idx)
+                    && word_count <= 1
+                {
+                    let param_vtype = self
+                        .current_arg_types
+                        .get(param_start as usize)
+                        .copied()
+                        .unwrap_or(ValType::I64);
+                    self.emit_scalar_operand(src, param_vtype, func);
+                    func.instruction(&W::LocalSet(param_start));
+                    return Ok(());
+                }
                 if word_size > 1 {
                     // Multi-word store: copy each word from src address to dst address
                     // Both src and dst are pointers (I64) to linear memory.
